@@ -523,6 +523,8 @@ type c06ConnCase struct {
 	// Glued: no prefix; the malformed packet sits in the same buffer directly behind the CONNACK, so the reader
 	// may hit it before Connect has returned
 	Glued bool `json:"glued,omitempty"`
+	// NoHandler: the application never registered a handler (malformed packets must end the link all the same)
+	NoHandler bool `json:"noHandler,omitempty"`
 }
 
 func c06GenBad(rt *rapid.T) c06Bad {
@@ -632,12 +634,16 @@ func c06ConnRun(tb rapid.TB, c c06ConnCase) {
 	r := newBaseRig()
 	defer r.shutdown()
 	cc := c04Case{Handler: "on", Steps: c.Prefix, MaxRead: c.MaxRead}
+	from := 0
+	if c.NoHandler {
+		cc.Handler, from = "off", -1
+	}
 	obs, ok := c04Drive(tb, r, cc)
 	vCount("C06", len(c.Prefix) >= 1, vJSON(c), []string{"conn:" + c.Bad.Class}, func() interface{} { return c })
 	if !ok {
 		vFailf(tb, r.log.strings(60), "client stopped processing the well-formed prefix; Err()=%v", r.cli.Err())
 	}
-	exp, _, _ := c04Reference(c.Prefix, 0)
+	exp, _, _ := c04Reference(c.Prefix, from)
 	if msg := c04Compare(exp, obs); msg != "" {
 		vFailf(tb, r.log.strings(80), "well-formed packets before the malformed one were not processed normally: %s", msg)
 	}
@@ -786,10 +792,11 @@ func TestVerifC06_Connected(t *testing.T) {
 			return c06ConnCase{Bad: c06GenBad(rt), Glued: true}
 		}
 		return c06ConnCase{
-			Prefix:  c04GenSteps(rt, 8),
-			Bad:     c06GenBad(rt),
-			Junk:    rapid.SliceOfN(rapid.Byte(), 0, 16).Draw(rt, "junk"),
-			MaxRead: rapid.SampledFrom([]int{0, 0, 1, 3}).Draw(rt, "maxRead"),
+			Prefix:    c04GenSteps(rt, 8),
+			Bad:       c06GenBad(rt),
+			Junk:      rapid.SliceOfN(rapid.Byte(), 0, 16).Draw(rt, "junk"),
+			MaxRead:   rapid.SampledFrom([]int{0, 0, 1, 3}).Draw(rt, "maxRead"),
+			NoHandler: rapid.IntRange(0, 2).Draw(rt, "noHandler") == 0,
 		}
 	}, c06ConnRun)
 }
